@@ -248,6 +248,11 @@ func classify(fs []*finding, partial bool, findingsFile string) []*finding {
 			sp := strings.SplitN(p[2], "@", 2)
 			add("value-with-"+sp[0]+"|"+p[1], 5+oracleRank[p[1]], f, p[2])
 			groups["value-with-"+sp[0]+"|"+p[1]].sig = true
+		case "whole": // whole|oracle|content@form@position/arrangement
+			sp := strings.SplitN(p[2], "@", 2)
+			k := "whole-value-" + sp[0] + "|" + p[1]
+			add(k, 5+oracleRank[p[1]], f, sp[1])
+			groups[k].sig = true
 		case "pct": // pct|oracle|ckind|after=|before=
 			add("comment-with-percent|"+p[1], 25+oracleRank[p[1]], f, p[2]+":"+keyField(f.key, "after")+">"+keyField(f.key, "before"))
 			groups["comment-with-percent|"+p[1]].sig = true
